@@ -311,41 +311,32 @@ Theorem C03_handoff_value_outlives : forall k c n sched,
 Proof. exact handoff_value_outlives. Qed.
 Print Assumptions C03_handoff_value_outlives.
 
-(* split, ensure_started (the predecessor's receiver carries an intrusive_ptr, kept in the stack
-   copy r until set_predecessor_done has returned): no member of the shared state is ever
-   accessed after the state was destroyed *)
-Theorem C03_handoff_state_outlives : forall k c n sched, holds_ref k = true ->
+(* split, ensure_started, split_tuple (the predecessor's receiver carries an intrusive_ptr, kept
+   in the stack copy r until set_predecessor_done has returned): no member of the shared state is
+   ever accessed after the state was destroyed.  For split_tuple this needed a repair of the code:
+   its receiver held a plain `shared_state&`, and with 2 consumers whose receivers destroy their
+   operation states inside the signal, threads [1; 0; 0; 1; 2; 2; 0; 0] made the predecessor
+   thread run `std::lock_guard l{mtx}` and `std::move(continuations)` in freed memory (reproduced
+   on the real code, KNOWN_FINDINGS.txt `fixed:`; the LIFE cases of harness/c03_lock.cpp replay
+   that schedule on every run and compare the observed accesses with l_bad). *)
+Theorem C03_handoff_state_outlives : forall k c n sched,
   l_bad (snd (fst (hl_run k c n sched))) = [].
-Proof. exact handoff_state_outlives. Qed.
+Proof. exact handoff_state_outlives_all. Qed.
 Print Assumptions C03_handoff_state_outlives.
-
-(* split_tuple: its receiver holds a plain `shared_state&`.  Full statement would be the one
-   above for HTuple; it is false in the faithful model (next theorem).  What holds: only the
-   predecessor thread's lock_guard (P2) and its read of `continuations` (P3) can touch a destroyed
-   state — never a consumer, never the emplace of v or the store to predecessor_done. *)
-Theorem C03_handoff_tuple_state_partial : forall c n sched e,
-  In e (l_bad (snd (fst (hl_run HTuple c n sched)))) -> e = (0, P2) \/ e = (0, P3).
-Proof. exact handoff_tuple_state_partial. Qed.
-Print Assumptions C03_handoff_tuple_state_partial.
-
-(* witness: 2 consumers; consumer 1 starts the predecessor, which completes on another thread:
-   v stored, predecessor_done = true; consumers 1 and 2 see the flag, signal themselves, their
-   receivers destroy the operation states -> count 0, shared state freed; the predecessor thread
-   then executes `std::lock_guard l{mtx}` (and reads `continuations`) in freed memory *)
-Theorem C03_handoff_tuple_state_refuted :
-  exists n sched, In (0, P2) (l_bad (snd (fst (hl_run HTuple (CVal [1%N; 2%N]) n sched)))).
-Proof. exact handoff_tuple_state_refuted. Qed.
-Print Assumptions C03_handoff_tuple_state_refuted.
 
 (* non-vacuity: split, two consumers whose receivers destroy the operation states inside the
    signal — the state survives the continuation loop through r and dies with r's release;
-   split_tuple with a stored continuation: alive through P2 / P3, dies inside the last continuation *)
+   split_tuple with a stored continuation: the same; split_tuple on the schedule of the former
+   defect: both consumers gone before the predecessor thread's lock_guard, the state dies with r *)
 Example C03_example_life :
   let st := hl_run HSplit (CVal [7%N]) 2 (with_oracle (fun _ => true) [1; 1; 1; 1; 2; 2; 2; 2; 0; 0; 0; 0]) in
   l_bad (snd (fst st)) = [] /\ l_alive (snd (fst st)) = false /\ l_rel (snd (fst st)) = [0; 2; 1] /\
   l_reads (snd (fst st)) = [(2, 0, true, true, true); (1, 0, true, true, true)] /\
   (let st2 := hl_run HTuple (CVal [1%N; 2%N]) 2 (with_oracle (fun _ => true) [1; 1; 1; 1; 0; 0; 2; 2; 2; 0; 0]) in
-   l_bad (snd (fst st2)) = [] /\ l_alive (snd (fst st2)) = false /\ l_rel (snd (fst st2)) = [1; 2]).
+   l_bad (snd (fst st2)) = [] /\ l_alive (snd (fst st2)) = false /\ l_rel (snd (fst st2)) = [0; 1; 2]) /\
+  (let st3 := hl_run HTuple (CVal [1%N; 2%N]) 2 (with_oracle (fun _ => true) [1; 0; 0; 1; 2; 2; 0; 0]) in
+   l_bad (snd (fst st3)) = [] /\ l_alive (snd (fst st3)) = false /\ l_rel (snd (fst st3)) = [0; 2; 1] /\
+   l_alive (snd (fst (hl_run HTuple (CVal [1%N; 2%N]) 2 (with_oracle (fun _ => true) [1; 0; 0; 1; 2; 2; 0])))) = true).
 Proof. vm_compute. repeat split. Qed.
 
 (* ---------------------------------------------------------------- Part 2c: the join's slots
